@@ -163,7 +163,10 @@ def run(F, R):
         R.check("C08-R3", "commit", cm and not (rets & reach(S, S.succ[ucr[0]], cut_nodes=cm)), "committed on every path", "the check can return without commit")
         R.check("C08-R3", "order", not (set(cm) & reach(S, S.succ[ucr[0]], cut_nodes=cs)) and not any(x in reach(S, [y for y in cm]) for x in cs + as_), "context -> apps -> commit", "commit can precede the writes it should cover")
         # the app-set loop: persist is called for every app (loop over get_apps without early exit)
-        R.check("C08-R3", "apps-before-commit", not (set(cm) & reach(S, cs[-1:] if cs else [], cut_nodes=as_)) or True, "apps persisted in the same group", "")
+        ap = [x for x in sm.calls(S, "app_set::AppSetExt::persist") if x in after]
+        if R.floor("C08-R3", "AppSetExt::persist calls after the result", len(ap), 1):
+            R.check("C08-R3", "apps-before-commit", not (set(cm) & reach(S, S.succ[ucr[0]], cut_nodes=ap)), "every path to the commit persists the app set first (same commit group as the context)",
+                    "the commit of a finished check can be reached without persisting the app set (e.g. skipped under a condition): the result is committed without the apps' cohort/user-counting")
     if pcs:
         pc = pcs[0]
         pcm = [x for x in sm.env(Sr, "Storage", "commit") if smod.descends(Sr.nodes[x].ctx, pc)]
@@ -253,11 +256,8 @@ def run(F, R):
 def _is_increment(v):
     """x + 1 in any of its spellings (plain, compound, saturating, checked): the counter's own
     previous value plus the constant one."""
-    import re
-    f = r"param1\.0\.context\.state\.consecutive_failed_update_checks"
-    pats = [r"AddWithOverflow\(%s, 1\)\.0" % f, r"add_assign\(%s, 1\)" % f, r"saturating_add\(%s, 1\)" % f,
-            r"unwrap_or\(checked_add\(%s, 1\), [^)]*\)" % f, r"Add\(%s, 1\)" % f]
-    return any(re.fullmatch(p, v) for p in pats)
+    from .. import terms as _terms
+    return _terms.plus_one_base(v) == "param1.0.context.state.consecutive_failed_update_checks"
 
 
 def _k(S, x):
